@@ -9,9 +9,12 @@ From BT Require Import Base.Prelude Base.Rose Algo.Plot Spec.PC19.
 
 Record pcase := PC {
   pc_par : params;                    (* parameters of the first call *)
-  pc_tree : tree;                     (* the shape of the fresh tree before the first call *)
+  pc_tree : tree;                     (* the shape of the fresh (whole) tree before the first call *)
+  pc_start : list nat;                (* the node the calls are made on ([] = the root) *)
   pc_steps : list (edit * params);    (* further calls on the same tree object: edit, then lay out *)
-  pc_out : ctree                      (* shape and (x, y) attributes after the last call *)
+  pc_out : ctree;                     (* shape and (x, y) attributes after the last call *)
+  pc_binary : bool;                   (* the nodes are BinaryNode objects *)
+  pc_raised : option nat              (* exception code when the (first) call raised *)
 }.
 
 (* literal helpers used by the emitter *)
@@ -39,12 +42,41 @@ Fixpoint cnorm (a : ctree) : ctree :=
 
 (* model: the first call on the fresh tree, then the further calls; the property is evaluated
    on the implementation's coordinates after the last call, with the parameters of the last call
-   and the shape the tree has then *)
-Definition check_C19 (k : pcase) : nat :=
-  if negb (forallb params_posb (pc_par k :: map snd (pc_steps k))) then F_SKIP else
+   and the shape the tree has then.  Calls on a node that is not the root: one call only; the
+   coordinates of the subtree are compared and the property is evaluated on the subtree.
+   F_SKIP: a non-positive separation; a non-root start node that has a left sibling, or combined
+   with further calls (none of these is generated). *)
+Definition check_root (k : pcase) : nat :=
   let out := cnorm (pc_out k) in
   let st := run_steps (layout (pc_par k) (zero_d (pc_tree k))) (pc_steps k) in
   let plast := last (map snd (pc_steps k)) (pc_par k) in
   let tlast := tree_of_d (fst st) in
   flag (negb (agree (snd st) out)) F_DISAGREE
   + flag (negb (prop_C19 tol plast tlast out)) F_PROPFAIL.
+
+(* BinaryNode trees: the model predicts AttributeError; there are no coordinates, so the
+   property ("for every tree ... the coordinates ...") is false on such a case (K5) *)
+Definition check_binary (k : pcase) : nat :=
+  let agree_exn :=
+    match reingold_tilford_binary (pc_par k) (pc_tree k), pc_raised k with
+    | Raise e, Some code => Nat.eqb (exn_code e) code
+    | Ret c, None => agree c (cnorm (pc_out k))
+    | _, _ => false
+    end in
+  flag (negb agree_exn) F_DISAGREE + F_PROPFAIL.
+
+Definition check_C19 (k : pcase) : nat :=
+  if negb (forallb params_posb (pc_par k :: map snd (pc_steps k))) then F_SKIP else
+  if pc_binary k then check_binary k else
+  match pc_raised k with Some _ => F_DISAGREE | None =>
+  match pc_start k with
+  | [] => check_root k
+  | path =>
+      match pc_steps k, rt_at (pc_par k) (pc_tree k) path, subtree_at (pc_tree k) path with
+      | [], Some c, Some sub =>
+          let out := cnorm (pc_out k) in
+          flag (negb (agree c out)) F_DISAGREE
+          + flag (negb (prop_C19 tol (pc_par k) sub out)) F_PROPFAIL
+      | _, _, _ => F_SKIP
+      end
+  end end.
